@@ -91,25 +91,95 @@ theorem comparison_wiring :
 
 /-! ## the homomorphism -/
 
-/-- the trusted primitive `pyPow` (real power of a positive number) is multiplicative and agrees with integer
-powers wherever the resulting exponent is an integer -/
+/-- **Contract of the trusted primitive** `pyPow` (Python's `float ** e` for a non-integer `e = p/q`, `q > 1`, in
+lowest terms, and a positive base), stated only where it can hold for a ℚ-valued function (a real power is
+irrational in general):
+* `root`: whenever the exact result is rational — a positive `r` with `r^q = x^p` exists — `pyPow` returns it;
+* `scale`: perfect `q`-th powers come out of the root, `(x · y^q)^e = x^e · y^p`.
+Both hold for the real power function; `powContract_satisfiable` exhibits a ℚ-valued function having both.
+Integer exponents never reach `pyPow` (`powVal` uses the exact `v ^ n`). -/
 structure PowContract (pyPow : Rat → Rat → Rat) : Prop where
-  mul : ∀ x y e, 0 < x → 0 < y → pyPow (x * y) e = pyPow x e * pyPow y e
-  zpow : ∀ x (k m : Int) e, 0 < x → (k : Rat) * e = m → pyPow (x ^ k) e = x ^ m
+  root : ∀ x e r : Rat, e.den ≠ 1 → 0 < x → 0 < r → r ^ e.den = x ^ e.num → pyPow x e = r
+  scale : ∀ e : Rat, e.den ≠ 1 → PowScale pyPow e
 
-/-- **C05, main theorem.**  For every expression tree over numbers, quantities and quantity arrays whose
-quantity leaves carry valid unit systems (the invariant of `UnitsSystem`): if the code's evaluation returns `r`,
-exact arithmetic on the SI values and dimension vectors of the leaves returns the SI reading of `r`
-(value(s) in SI base units, dimension vector, and the system `r` is expressed in — consulted only to read
-a plain number standing next to a quantity in `+ - %`, which the property says takes that quantity's units);
-and the code raises exactly when the SI-level evaluation is an error (different dimensions in `+ - %`,
-lengths, non-integer exponent, zero divisor).
-`hp : PowHom pyPow` is the same statement for the single operator `**`; see `powHom_*` below for what is
-proved of it. -/
-theorem eval_homomorphism (pyPow : Rat → Rat → Rat) (hp : PowHom pyPow) (e : Expr) (he : e.wf) :
+/-- positive `q`-th roots are unique -/
+theorem pos_root_unique {r r' : Rat} {q : Nat} (hq : q ≠ 0) (hr : 0 < r) (hr' : 0 < r') (h : r ^ q = r' ^ q) :
+    r = r' := (pow_left_inj₀ (le_of_lt hr) (le_of_lt hr') hq).1 h
+
+open Classical in
+/-- the contract is satisfiable: return the exact positive rational root when there is one (and 0 otherwise) -/
+theorem powContract_satisfiable : ∃ pyPow : Rat → Rat → Rat, PowContract pyPow := by
+  let g : Rat → Rat → Rat := fun x e =>
+    if h : ∃ r : Rat, 0 < r ∧ r ^ e.den = x ^ e.num then Classical.choose h else 0
+  have hroot : ∀ x e r : Rat, 0 < r → r ^ e.den = x ^ e.num → g x e = r := by
+    intro x e r hr hre
+    have h : ∃ r : Rat, 0 < r ∧ r ^ e.den = x ^ e.num := ⟨r, hr, hre⟩
+    have hc := Classical.choose_spec h
+    simp only [g, dif_pos h]
+    exact pos_root_unique e.den_nz hc.1 hr (hc.2.trans hre.symm)
+  refine ⟨g, ⟨fun x e r _ _ hr hre => hroot x e r hr hre, ?_⟩⟩
+  intro e _ x y hx hy
+  have hyq : (y ^ e.den) ^ e.num = (y ^ e.num) ^ e.den := by
+    rw [← zpow_natCast, ← zpow_mul, ← zpow_natCast (y ^ e.num), ← zpow_mul, mul_comm]
+  by_cases h : ∃ r : Rat, 0 < r ∧ r ^ e.den = x ^ e.num
+  · obtain ⟨r, hr, hre⟩ := h
+    rw [hroot x e r hr hre]
+    apply hroot
+    · exact mul_pos hr (zpow_pos hy _)
+    · rw [mul_pow, mul_zpow, hre, hyq]
+  · have h' : ¬ ∃ r : Rat, 0 < r ∧ r ^ e.den = (x * y ^ e.den) ^ e.num := by
+      rintro ⟨r, hr, hre⟩
+      apply h
+      refine ⟨r / y ^ e.num, div_pos hr (zpow_pos hy _), ?_⟩
+      rw [div_pow, hre, mul_zpow, hyq]
+      have : (y ^ e.num) ^ e.den ≠ 0 := ne_of_gt (pow_pos (zpow_pos hy _) _)
+      field_simp
+    simp only [g, dif_neg h, dif_neg h', zero_mul]
+
+/-- a non-trivial value the contract pins down: `(8 m³)^(2/3)`: `pyPow 8 (2/3) = 4` -/
+example (pyPow : Rat → Rat → Rat) (hc : PowContract pyPow) : pyPow 8 (2/3) = 4 := by
+  apply hc.root 8 (2/3) 4 (by decide +kernel) (by norm_num) (by norm_num)
+  have h1 : (2/3 : Rat).den = 3 := by decide +kernel
+  have h2 : (2/3 : Rat).num = 2 := by decide +kernel
+  rw [h1, h2]; norm_num
+
+theorem expsOK_of_contract (pyPow : Rat → Rat → Rat) (hc : PowContract pyPow) (e : Expr) : e.expsOK pyPow := by
+  induction e with
+  | leaf o => trivial
+  | bin op a b iha ihb => exact ⟨iha, ihb⟩
+  | pow a b iha ihb => exact ⟨iha, ihb, fun n _ hn => hc.scale n hn⟩
+  | neg a ih => exact ih
+  | abs a ih => exact ih
+  | inv a ih => exact ih
+
+/-- every exponent of the tree is an integer literal -/
+def _root_.Strengths.Expr.intExponents : Expr → Prop
+  | .leaf _ => True
+  | .bin _ a b => a.intExponents ∧ b.intExponents
+  | .pow a b => a.intExponents ∧ ∃ n : Rat, b = .leaf (.num n) ∧ n.den = 1
+  | .neg a => a.intExponents
+  | .abs a => a.intExponents
+  | .inv a => a.intExponents
+
+theorem expsOK_of_intExponents (pyPow : Rat → Rat → Rat) (e : Expr) (hi : e.intExponents) : e.expsOK pyPow := by
+  induction e with
+  | leaf o => trivial
+  | bin op a b iha ihb => exact ⟨iha hi.1, ihb hi.2⟩
+  | pow a b iha ihb =>
+    obtain ⟨ha, n, hb, hn⟩ := hi
+    subst hb
+    refine ⟨iha ha, trivial, ?_⟩
+    intro m hm hden
+    simp only [eval] at hm
+    cases hm
+    exact absurd hn hden
+  | neg a ih => exact ih hi
+  | abs a ih => exact ih hi
+  | inv a ih => exact ih hi
+
+theorem homomorphism_of_sim {e : Expr} {pyPow : Rat → Rat → Rat} (h : Sim (eval pyPow e) (evalSI pyPow e)) :
     (∀ r, eval pyPow e = .ok r → evalSI pyPow e = .ok (siOf r)) ∧
     ((eval pyPow e).isError = true ↔ (evalSI pyPow e).isError = true) := by
-  have h := eval_sim pyPow hp e he
   constructor
   · intro r hr
     rw [hr] at h
@@ -118,31 +188,40 @@ theorem eval_homomorphism (pyPow : Rat → Rat → Rat) (hp : PowHom pyPow) (e :
     | ok r => rw [hev] at h; simp [Res.isError, h.1]
     | error er => rw [hev] at h; obtain ⟨e', h'⟩ := h; simp [Res.isError, h']
 
-/-- `**`: every operand pairing other than `UnitValue ** number` agrees with the specification outright
-(number ** number is the same function on both sides, everything else raises on both sides), so `PowHom` reduces
-to the scalar case.
-`eval_homomorphism` is therefore PARTIAL in one respect: the scalar case `hv` (the SI value of `x ** e` is
-`(SI value of x) ** e`, which for non-integer `e` needs `PowContract pyPow`, and the equivalence of `raiseto` with
-`dimPow`, for which see `pow_defined_iff`) is a hypothesis, not yet derived from `PowContract`; the correspondence
-check compares `**` on every generated tree (integer exponents −3..3 exactly, 1/2, 1/3, 2/3, 3/2 to 1e-9). -/
-theorem powHom_of_scalar (pyPow : Rat → Rat → Rat)
-    (hv : ∀ (x : UVal) (e : Rat), x.u.sys.valid = true →
-      Sim (powOp pyPow (.val x) (.num e)) (siPow pyPow (siOf (.val x)) (.num e))) : PowHom pyPow := by
-  intro a b ha hb
-  cases a with
-  | num m =>
-    cases b with
-    | num e =>
-      simp only [powOp, siPow, siOf]
-      cases powVal pyPow m e <;> simp [Sim, siOf, Operand.wf]
-    | val y => simp [powOp, siPow, siOf, Sim]
-    | arr y => simp [powOp, siPow, siOf, Sim]
-  | val x =>
-    cases b with
-    | num e => exact hv x e ha
-    | val y => simp [powOp, siPow, siOf, Sim]
-    | arr y => simp [powOp, siPow, siOf, Sim]
-  | arr x => cases b <;> simp [powOp, siPow, siOf, Sim]
+/-- **C05, main theorem.**  For every expression tree over numbers, quantities and quantity arrays whose
+quantity leaves carry valid unit systems (the invariant of `UnitsSystem`): if the code's evaluation returns `r`,
+exact arithmetic on the SI values and dimension vectors of the leaves returns the SI reading of `r`
+(value(s) in SI base units, dimension vector, and the system `r` is expressed in — consulted only to read
+a plain number standing next to a quantity in `+ - %`, which the property says takes that quantity's units);
+and the code raises exactly when the SI-level evaluation is an error (different dimensions in `+ - %`,
+lengths, non-integer resulting exponent, zero divisor).
+The only hypothesis besides validity is the contract of the trusted float power, used solely at `**` nodes with a
+non-integer exponent (its `scale` clause). -/
+theorem eval_homomorphism (pyPow : Rat → Rat → Rat) (hc : PowContract pyPow) (e : Expr) (he : e.wf) :
+    (∀ r, eval pyPow e = .ok r → evalSI pyPow e = .ok (siOf r)) ∧
+    ((eval pyPow e).isError = true ↔ (evalSI pyPow e).isError = true) :=
+  homomorphism_of_sim (eval_sim pyPow e he (expsOK_of_contract pyPow hc e))
+
+/-- … and with NO hypothesis on the float power at all for trees whose exponents are integer literals
+(any `pyPow : ℚ → ℚ → ℚ` whatsoever): `(v·f)^n = v^n · f^n` and `f^n` is the SI size of the unit `dim·n`. -/
+theorem eval_homomorphism_int (pyPow : Rat → Rat → Rat) (e : Expr) (he : e.wf) (hi : e.intExponents) :
+    (∀ r, eval pyPow e = .ok r → evalSI pyPow e = .ok (siOf r)) ∧
+    ((eval pyPow e).isError = true ↔ (evalSI pyPow e).isError = true) :=
+  homomorphism_of_sim (eval_sim pyPow e he (expsOK_of_intExponents pyPow e hi))
+
+/-- one application of `**`, all operand pairings: `UnitValue ** e` has SI value `(SI value)^e` and dimension
+`dim·e` when that is an integer vector, and raises otherwise; `UnitArray ** _`, `_ ** quantity` raise.  The contract
+is used only when `e` is not an integer. -/
+theorem pow_homomorphism (pyPow : Rat → Rat → Rat) (a b : Operand) (ha : a.wf) (hb : b.wf)
+    (hs : ∀ e, b = .num e → e.den ≠ 1 → PowScale pyPow e) :
+    (∀ r, powOp pyPow a b = .ok r → siPow pyPow (siOf a) (siOf b) = .ok (siOf r)) ∧
+    ((powOp pyPow a b).isError = true ↔ (siPow pyPow (siOf a) (siOf b)).isError = true) := by
+  have h := powOp_sim pyPow a b ha hb hs
+  constructor
+  · intro r hr; rw [hr] at h; exact h.1
+  · cases hev : powOp pyPow a b with
+    | ok r => rw [hev] at h; simp [Res.isError, h.1]
+    | error er => rw [hev] at h; obtain ⟨e', h'⟩ := h; simp [Res.isError, h']
 
 /-- one operator application, all nine operand-type pairings, forward and reflected methods -/
 theorem binop_homomorphism (op : BinOp) (a b : Operand) (ha : a.wf) (hb : b.wf) :
@@ -195,58 +274,155 @@ theorem result_independent_of_storage (op : BinOp) (p p' : Pay) (d d' : Dim) (s 
   split <;> split <;> (try split) <;> (try split) <;>
     simp [qtyOk, Except.toOption, core] <;> (cases Pay.zip (ratOp op) p p' <;> simp [Except.toOption, core])
 
-/-- … in particular for the code: the same operands stored in other systems give the same SI result -/
-theorem result_independent_of_storage_code (op : BinOp) (x y : UVal) (hx : x.u.sys.valid = true)
-    (hy : y.u.sys.valid = true) {U V : Sys} (hU : U.valid = true) (hV : V.valid = true) {r r' : Operand}
-    (h : binop op (.val x) (.val y) = .ok r) (h' : binop op (.val (x.toSys U)) (.val (y.toSys V)) = .ok r') :
+theorem Pay.zip_comm (f : Rat → Rat → Rat) (hf : ∀ a b, f a b = f b a) (p p' : Pay) :
+    Pay.zip f p p' = Pay.zip f p' p := by
+  cases p with
+  | one a =>
+    cases p' with
+    | one b => simp only [Pay.zip]; rw [hf]
+    | many bs => simp only [Pay.zip]; congr; funext b; exact hf a b
+  | many as =>
+    cases p' with
+    | one b => simp only [Pay.zip]; congr; funext a; exact hf a b
+    | many bs =>
+      simp only [Pay.zip]
+      by_cases hl : as.length = bs.length
+      · have hl' : bs.length = as.length := hl.symm
+        rw [if_neg (fun h => h hl), if_neg (fun h => h hl'), List.zipWith_comm]
+        congr; funext a b; exact hf b a
+      · have hl' : ¬ bs.length = as.length := fun h => hl h.symm
+        rw [if_pos hl, if_pos hl']
+
+theorem Pay.zip_sub_anticomm (p p' : Pay) :
+    Pay.zip (fun a b => a - b) p p' =
+      (match Pay.zip (fun a b => a - b) p' p with
+       | .error e => .error e
+       | .ok r => .ok (r.map (fun a => -a))) := by
+  cases p with
+  | one a =>
+    cases p' with
+    | one b => simp only [Pay.zip, Pay.map, neg_sub]
+    | many bs => simp only [Pay.zip, Pay.map, List.map_map]; congr; funext b; simp
+  | many as =>
+    cases p' with
+    | one b => simp only [Pay.zip, Pay.map, List.map_map]; congr; funext a; simp
+    | many bs =>
+      simp only [Pay.zip]
+      by_cases hl : as.length = bs.length
+      · have hl' : bs.length = as.length := hl.symm
+        rw [if_neg (fun h => h hl), if_neg (fun h => h hl')]
+        simp only [Pay.map, List.map_zipWith]
+        rw [List.zipWith_comm]
+        congr; funext a b; simp
+      · have hl' : ¬ bs.length = as.length := fun h => hl h.symm
+        rw [if_pos hl, if_pos hl']
+
+/-- … in particular for the code, for ALL quantity pairings (value-value, value-array, array-value, array-array):
+operands with the same SI values and dimensions, stored in other unit systems, give the same SI result -/
+theorem result_independent_of_storage_code (op : BinOp) (a b a' b' : Operand)
+    (ha : a.wf) (hb : b.wf) (ha' : a'.wf) (hb' : b'.wf) {p p' : Pay} {d d' : Dim} {s s' t t' : Sys}
+    (ea : siOf a = .qty p d s) (eb : siOf b = .qty p' d' s') (ea' : siOf a' = .qty p d t) (eb' : siOf b' = .qty p' d' t')
+    {r r' : Operand} (h : binop op a b = .ok r) (h' : binop op a' b' = .ok r') :
     core (siOf r) = core (siOf r') := by
-  have a := (binop_homomorphism op (.val x) (.val y) hx hy).1 r h
-  have b := (binop_homomorphism op (.val (x.toSys U)) (.val (y.toSys V)) hU hV).1 r' h'
-  have e := result_independent_of_storage op (.one x.si) (.one y.si) x.u.dim y.u.dim x.u.sys y.u.sys U V
-  change siBin op (.qty (.one x.si) x.u.dim x.u.sys) (.qty (.one y.si) y.u.dim y.u.sys) = _ at a
-  change siBin op (.qty (.one (x.toSys U).si) x.u.dim U) (.qty (.one (y.toSys V).si) y.u.dim V) = _ at b
-  rw [(toSys_si x hx hU).1, (toSys_si y hy hV).1] at b
-  rw [a, b] at e
+  have x := (binop_homomorphism op a b ha hb).1 r h
+  have y := (binop_homomorphism op a' b' ha' hb').1 r' h'
+  have e := result_independent_of_storage op p p' d d' s s' t t'
+  rw [ea, eb] at x
+  rw [ea', eb'] at y
+  rw [x, y] at e
   simpa [Except.toOption] using e
 
-/-- `a + b` and `b + a` (scalar quantities, any two systems) have the same SI value and dimension -/
-theorem add_comm_si (x y : UVal) (hx : x.u.sys.valid = true) (hy : y.u.sys.valid = true) {r r' : Operand}
-    (h : binop .add (.val x) (.val y) = .ok r) (h' : binop .add (.val y) (.val x) = .ok r') :
+/-- instance: two arrays re-expressed in any two other valid systems -/
+theorem result_independent_of_storage_arrays (op : BinOp) (x y : UArr) (hx : x.u.sys.valid = true)
+    (hy : y.u.sys.valid = true) {U V : Sys} (hU : U.valid = true) (hV : V.valid = true) {r r' : Operand}
+    (h : binop op (.arr x) (.arr y) = .ok r) (h' : binop op (.arr (x.toSys U)) (.arr (y.toSys V)) = .ok r') :
     core (siOf r) = core (siOf r') := by
-  have a := (binop_homomorphism .add (.val x) (.val y) hx hy).1 r h
-  have b := (binop_homomorphism .add (.val y) (.val x) hy hx).1 r' h'
-  change siBin .add (.qty (.one x.si) x.u.dim x.u.sys) (.qty (.one y.si) y.u.dim y.u.sys) = _ at a
-  change siBin .add (.qty (.one y.si) y.u.dim y.u.sys) (.qty (.one x.si) x.u.dim x.u.sys) = _ at b
-  by_cases hd : x.u.dim = y.u.dim
-  · simp [siBin, BinOp.additive, BinOp.needsNonZero, qtyOk, Pay.zip, ratOp, hd] at a b
-    rw [← a, ← b]; simp [core, add_comm, hd]
-  · have hd' : ¬ y.u.dim = x.u.dim := fun e => hd e.symm
-    simp [siBin, BinOp.additive, hd] at a
+  refine result_independent_of_storage_code (t := U) (t' := V) op (.arr x) (.arr y) (.arr (x.toSys U)) (.arr (y.toSys V)) hx hy hU hV rfl rfl ?_ ?_ h h'
+  · simp only [siOf, (toSys_si_array x hx hU).1]; rfl
+  · simp only [siOf, (toSys_si_array y hy hV).1]; rfl
 
-/-- `a * b` and `b * a` -/
-theorem mul_comm_si (x y : UVal) (hx : x.u.sys.valid = true) (hy : y.u.sys.valid = true) {r r' : Operand}
-    (h : binop .mul (.val x) (.val y) = .ok r) (h' : binop .mul (.val y) (.val x) = .ok r') :
+/-- instance: a value and an array -/
+theorem result_independent_of_storage_val_arr (op : BinOp) (x : UVal) (y : UArr) (hx : x.u.sys.valid = true)
+    (hy : y.u.sys.valid = true) {U V : Sys} (hU : U.valid = true) (hV : V.valid = true) {r r' : Operand}
+    (h : binop op (.val x) (.arr y) = .ok r) (h' : binop op (.val (x.toSys U)) (.arr (y.toSys V)) = .ok r') :
     core (siOf r) = core (siOf r') := by
-  have a := (binop_homomorphism .mul (.val x) (.val y) hx hy).1 r h
-  have b := (binop_homomorphism .mul (.val y) (.val x) hy hx).1 r' h'
-  change siBin .mul (.qty (.one x.si) x.u.dim x.u.sys) (.qty (.one y.si) y.u.dim y.u.sys) = _ at a
-  change siBin .mul (.qty (.one y.si) y.u.dim y.u.sys) (.qty (.one x.si) x.u.dim x.u.sys) = _ at b
-  simp [siBin, BinOp.additive, BinOp.needsNonZero, qtyOk, Pay.zip, ratOp] at a b
-  rw [← a, ← b]
-  simp [core, mul_comm, Dim.add, add_comm]
+  refine result_independent_of_storage_code (t := U) (t' := V) op (.val x) (.arr y) (.val (x.toSys U)) (.arr (y.toSys V)) hx hy hU hV rfl rfl ?_ ?_ h h'
+  · simp only [siOf, (toSys_si x hx hU).1]; rfl
+  · simp only [siOf, (toSys_si_array y hy hV).1]; rfl
 
-/-- `a - b = -(b - a)` in SI -/
-theorem sub_antisymm (x y : UVal) (hx : x.u.sys.valid = true) (hy : y.u.sys.valid = true) {r r' : Operand}
-    (h : binop .sub (.val x) (.val y) = .ok r) (h' : binop .sub (.val y) (.val x) = .ok r') :
+theorem siBin_comm_core (op : BinOp) (hop : op = .add ∨ op = .mul) (p p' : Pay) (d d' : Dim) (s s' : Sys) :
+    (siBin op (.qty p d s) (.qty p' d' s')).toOption.bind core =
+    (siBin op (.qty p' d' s') (.qty p d s)).toOption.bind core := by
+  rcases hop with rfl | rfl
+  · by_cases hd : d = d'
+    · subst hd
+      simp only [siBin, BinOp.additive, BinOp.needsNonZero, ne_eq, not_true_eq_false, if_true, if_false, false_and]
+      rw [Pay.zip_comm (ratOp .add) (fun a b => by simp [ratOp, add_comm]) p p']
+      cases Pay.zip (ratOp .add) p' p <;> simp [qtyOk, Except.toOption, core]
+    · have hd' : ¬ d' = d := fun h => hd h.symm
+      simp [siBin, BinOp.additive, hd, hd', Except.toOption]
+  · simp only [siBin, BinOp.additive, BinOp.needsNonZero, if_false, false_and]
+    rw [Pay.zip_comm (ratOp .mul) (fun a b => by simp [ratOp, mul_comm]) p p']
+    have hdd : d.add d' = d'.add d := by simp [Dim.add, add_comm]
+    cases Pay.zip (ratOp .mul) p' p <;> simp [qtyOk, Except.toOption, core, hdd]
+
+/-- `a + b` and `b + a`, `a * b` and `b * a` have the same SI value(s) and dimension, for every pairing of
+quantity operands (value / array on either side) in any unit systems -/
+theorem comm_si (op : BinOp) (hop : op = .add ∨ op = .mul) (a b : Operand) (ha : a.wf) (hb : b.wf)
+    {p p' : Pay} {d d' : Dim} {s s' : Sys} (ea : siOf a = .qty p d s) (eb : siOf b = .qty p' d' s')
+    {r r' : Operand} (h : binop op a b = .ok r) (h' : binop op b a = .ok r') :
+    core (siOf r) = core (siOf r') := by
+  have x := (binop_homomorphism op a b ha hb).1 r h
+  have y := (binop_homomorphism op b a hb ha).1 r' h'
+  have e := siBin_comm_core op hop p p' d d' s s'
+  rw [ea, eb] at x y
+  rw [x, y] at e
+  simpa [Except.toOption] using e
+
+theorem add_comm_si (a b : Operand) (ha : a.wf) (hb : b.wf)
+    {p p' : Pay} {d d' : Dim} {s s' : Sys} (ea : siOf a = .qty p d s) (eb : siOf b = .qty p' d' s')
+    {r r' : Operand} (h : binop .add a b = .ok r) (h' : binop .add b a = .ok r') :
+    core (siOf r) = core (siOf r') := comm_si .add (Or.inl rfl) a b ha hb ea eb h h'
+
+theorem mul_comm_si (a b : Operand) (ha : a.wf) (hb : b.wf)
+    {p p' : Pay} {d d' : Dim} {s s' : Sys} (ea : siOf a = .qty p d s) (eb : siOf b = .qty p' d' s')
+    {r r' : Operand} (h : binop .mul a b = .ok r) (h' : binop .mul b a = .ok r') :
+    core (siOf r) = core (siOf r') := comm_si .mul (Or.inr rfl) a b ha hb ea eb h h'
+
+/-- `a - b = -(b - a)` in SI, for every pairing of quantity operands -/
+theorem sub_antisymm (a b : Operand) (ha : a.wf) (hb : b.wf)
+    {p p' : Pay} {d d' : Dim} {s s' : Sys} (ea : siOf a = .qty p d s) (eb : siOf b = .qty p' d' s')
+    {r r' : Operand} (h : binop .sub a b = .ok r) (h' : binop .sub b a = .ok r') :
     core (siOf r) = core (siNeg (siOf r')) := by
-  have a := (binop_homomorphism .sub (.val x) (.val y) hx hy).1 r h
-  have b := (binop_homomorphism .sub (.val y) (.val x) hy hx).1 r' h'
-  change siBin .sub (.qty (.one x.si) x.u.dim x.u.sys) (.qty (.one y.si) y.u.dim y.u.sys) = _ at a
-  change siBin .sub (.qty (.one y.si) y.u.dim y.u.sys) (.qty (.one x.si) x.u.dim x.u.sys) = _ at b
-  by_cases hd : x.u.dim = y.u.dim
-  · simp [siBin, BinOp.additive, BinOp.needsNonZero, qtyOk, Pay.zip, ratOp, hd] at a b
-    rw [← a, ← b]; simp [core, siNeg, Pay.map, hd]
-  · simp [siBin, BinOp.additive, hd] at a
+  have x := (binop_homomorphism .sub a b ha hb).1 r h
+  have y := (binop_homomorphism .sub b a hb ha).1 r' h'
+  rw [ea, eb] at x y
+  by_cases hd : d = d'
+  · subst hd
+    simp only [siBin, BinOp.additive, BinOp.needsNonZero, ne_eq, not_true_eq_false, if_true, if_false, false_and] at x y
+    have hz := Pay.zip_sub_anticomm p p'
+    have hr : ratOp .sub = fun a b => a - b := by funext a b; rfl
+    rw [hr] at x y
+    cases hq : Pay.zip (fun a b => a - b) p' p with
+    | error e => rw [hq] at y; simp [qtyOk] at y
+    | ok q =>
+      rw [hq] at y hz
+      rw [hz] at x
+      simp only [qtyOk] at x y
+      have x' := Except.ok.inj x
+      have y' := Except.ok.inj y
+      rw [← x', ← y']
+      simp [core, siNeg]
+  · simp [siBin, BinOp.additive, hd] at x
+
+/-- the scalar instances, for reference: `(x + y).si = (y + x).si` for two `UnitValue`s in any two systems -/
+example (x y : UVal) (hx : x.u.sys.valid = true) (hy : y.u.sys.valid = true) {r r' : Operand}
+    (h : binop .add (.val x) (.val y) = .ok r) (h' : binop .add (.val y) (.val x) = .ok r') :
+    core (siOf r) = core (siOf r') := add_comm_si (.val x) (.val y) hx hy rfl rfl h h'
+/-- … and an array with a value -/
+example (x : UArr) (y : UVal) (hx : x.u.sys.valid = true) (hy : y.u.sys.valid = true) {r r' : Operand}
+    (h : binop .mul (.arr x) (.val y) = .ok r) (h' : binop .mul (.val y) (.arr x) = .ok r') :
+    core (siOf r) = core (siOf r') := mul_comm_si (.arr x) (.val y) hx hy rfl rfl h h'
 
 /-- `%` : the SI value of `a % b` is `si a mod si b` (Python's sign-of-divisor modulo), whatever the two systems -/
 theorem mod_si (x y : UVal) (hx : x.u.sys.valid = true) (hy : y.u.sys.valid = true) {r : Operand}
@@ -297,48 +473,20 @@ theorem pow_quantity_exponent_raises (pyPow : Rat → Rat → Rat) (a : Operand)
 
 /-- `raiseto`: a component is defined only when `dim · e` is an integer, and is then that integer -/
 theorem raiseDim_ok_iff (d : Int) (e : Rat) (m : Int) :
-    raiseDim d e = .ok m ↔ (d : Rat) * e = m := by
-  unfold raiseDim
-  constructor
-  · intro h
-    split at h
-    · cases h
-    · rename_i h0
-      cases h
-      have := not_not.mp h0
-      exact sub_eq_zero.mp this
-  · intro h
-    have ht : ratTrunc ((d : Rat) * e) = m := by
-      rw [h]; unfold ratTrunc
-      split
-      · exact Rat.floor_intCast m
-      · have : (-(m : Rat)) = ((-m : Int) : Rat) := by push_cast; rfl
-        rw [this, Rat.floor_intCast]; omega
-    rw [ht, h]; simp
+    raiseDim d e = .ok m ↔ (d : Rat) * e = m := Strengths.raiseDim_ok_iff d e m
 
 /-- `UnitValue ** e` is defined iff every `dim_k · e` is an integer (and the value is: no `0 ** negative`, no
 negative base with a fractional exponent); the resulting dimension is `dim · e` -/
 theorem pow_defined_iff (u : Units) (e : Rat) (u' : Units) :
     u.raiseto e = .ok u' ↔
       u'.sys = u.sys ∧ (u.dim.space : Rat) * e = u'.dim.space ∧ (u.dim.time : Rat) * e = u'.dim.time ∧
-        (u.dim.qty : Rat) * e = u'.dim.qty := by
-  unfold Units.raiseto
-  constructor
-  · intro h
-    split at h
-    · cases h
-    · rename_i a ha
-      split at h
-      · cases h
-      · rename_i b hb
-        split at h
-        · cases h
-        · rename_i c hc
-          cases h
-          exact ⟨rfl, (raiseDim_ok_iff _ _ _).1 ha, (raiseDim_ok_iff _ _ _).1 hb, (raiseDim_ok_iff _ _ _).1 hc⟩
-  · rintro ⟨hs, h1, h2, h3⟩
-    rw [(raiseDim_ok_iff _ _ _).2 h1, (raiseDim_ok_iff _ _ _).2 h2, (raiseDim_ok_iff _ _ _).2 h3]
-    cases u' with | mk s d => cases d; simp_all
+        (u.dim.qty : Rat) * e = u'.dim.qty := Strengths.raiseto_ok_iff u e u'
+
+/-- the code's float test `int(dim*e)`, `dim*e - rdim != 0` and the specification's "`dim·e` is an integer
+vector" define the same partial function -/
+theorem raiseto_eq_dimPow (u : Units) (e : Rat) :
+    (∀ u', u.raiseto e = .ok u' → dimPow u.dim e = some u'.dim) ∧
+    (∀ er, u.raiseto e = .error er → dimPow u.dim e = none) := Strengths.raiseto_dimPow u e
 
 /-- a non-integer resulting exponent raises -/
 theorem pow_nonint_raises (pyPow : Rat → Rat → Rat) (x : UVal) (e : Rat)
@@ -355,9 +503,8 @@ theorem pow_nonint_raises (pyPow : Rat → Rat → Rat) (x : UVal) (e : Rat)
 
 /-- value–value and value–number comparisons (either order) are the comparison of the SI values; across
 dimensions `==` is `False`, `!=` is `True` and the orderings raise.
-FULL STATEMENT (not provable, see the witness below): `∀ a b wf, evalCmp … = .ok (.bool v) ↔ evalCmpSI … = .ok v`, and
-`evalCmp` raises iff `evalCmpSI` is an error — it fails for a `UnitArray` operand of an ordering operator, where the
-code returns an exception object. This `_partial` theorem excludes array operands. -/
+This lemma excludes array operands and does not depend on how the ordering methods treat them; the full statement,
+including arrays, is `cmp_si` below. -/
 theorem cmp_si_partial (op : CmpOp) (a b : Operand) (ha : a.wf) (hb : b.wf)
     (na : ∀ x, a ≠ .arr x) (nb : ∀ x, b ≠ .arr x) :
     (∀ v, cmpOp op a b = .ok (.bool v) ↔ siCmp op (siOf a) (siOf b) = .ok v) ∧
@@ -392,6 +539,48 @@ theorem cmp_si_partial (op : CmpOp) (a b : Operand) (ha : a.wf) (hb : b.wf)
           mul_lt_mul_iff_of_pos_right, mul_le_mul_iff_of_pos_right]
         all_goals (first | rfl | (congr; done) | (constructor <;> (by_cases hh : x.v = y.v * convFactor y.u.sys x.u.sys y.u.dim <;> simp [hh])))
       · cases op <;> simp [cmpOp, UVal.cmp, siCmp, siOf, Res.isError, hd]
+
+/-- on the tree under test, the last branch of every ordering method of `UnitValue` raises its `TypeError`
+(read from the regenerated source; false on a tree where it `return`s the exception, cf. finding
+`cmp-array-returns-exception-object`, fixed by 8d48d0b) -/
+theorem ordering_else_raises : ∀ op : CmpOp, op.isOrdering = true → cmpElseRaises op = true := by
+  intro op h
+  cases op <;> first | (exact absurd h (by decide)) | decide +kernel
+
+/-- **comparisons, all pairings.**  The code's comparison returns the boolean `v` iff the SI-level comparison does,
+raises iff the SI-level comparison is an error, and never returns an exception object:
+* scalars (value–value of one dimension, value–number, number–value): comparison of the SI values, the number read
+  in the quantity's units;
+* different dimensions: `==` is `False`, `!=` is `True`, the orderings raise;
+* a `UnitArray` on either side (array–value, value–array, array–array, array–number, number–array): the orderings
+  raise (`UnitValue`'s method raises `TypeError`, or Python does since `UnitArray` defines no comparison);
+  `==` is `False` and `!=` is `True` — `UnitArray` has no `__eq__`, Python compares object identity, and two
+  operands of an expression are distinct objects.  (`x == x` for the same array object is `True` in Python; an
+  expression tree cannot denote that.) -/
+theorem cmp_si (op : CmpOp) (a b : Operand) (ha : a.wf) (hb : b.wf) :
+    (∀ v, cmpOp op a b = .ok (.bool v) ↔ siCmp op (siOf a) (siOf b) = .ok v) ∧
+    ((cmpOp op a b).isError = true ↔ (siCmp op (siOf a) (siOf b)).isError = true) ∧
+    cmpOp op a b ≠ .ok .excObject := by
+  have r1 := ordering_else_raises .lt rfl
+  have r2 := ordering_else_raises .le rfl
+  have r3 := ordering_else_raises .gt rfl
+  have r4 := ordering_else_raises .ge rfl
+  cases a with
+  | num m =>
+    cases b with
+    | arr y => cases op <;> simp [cmpOp, siCmp, siOf, Res.isError]
+    | num n => exact cmp_si_partial op _ _ ha hb (fun x h => by cases h) (fun x h => by cases h)
+    | val y => exact cmp_si_partial op _ _ ha hb (fun x h => by cases h) (fun x h => by cases h)
+  | val x =>
+    cases b with
+    | arr y => cases op <;> simp [cmpOp, UVal.cmp, siCmp, siOf, Res.isError, r1, r2, r3, r4]
+    | num n => exact cmp_si_partial op _ _ ha hb (fun x h => by cases h) (fun x h => by cases h)
+    | val y => exact cmp_si_partial op _ _ ha hb (fun x h => by cases h) (fun x h => by cases h)
+  | arr x =>
+    cases b with
+    | arr y => cases op <;> simp [cmpOp, siCmp, siOf, Res.isError]
+    | num n => cases op <;> simp [cmpOp, siCmp, siOf, Res.isError]
+    | val y => cases op <;> simp [cmpOp, UVal.cmp, CmpOp.swap, siCmp, siOf, Res.isError, r1, r2, r3, r4]
 
 /-- different dimensions: the orderings raise, `==` is `False`, `!=` is `True` -/
 theorem cmp_other_dim (x y : UVal) (hd : x.u.dim ≠ y.u.dim) :
